@@ -165,12 +165,12 @@ pub fn gen(rng: &mut Rng, tier: &str, dist: &mut Dist) -> Vec<String> {
     // stays at 64 MiB on the valid side (the invalid side 768 MiB + 1 is in the grid)
     emit(2, &Case { dict: 64 << 20, ..base_case() }, 0, 20, dist, "dict");
     emit(3, &Case { dict: 64 << 20, mf: 1, ..base_case() }, 0, 20, dist, "dict");
-    if thorough {
+    // (in the release profile only: with debug assertions the eager clearing of the tables alone takes
+    // minutes; these cases run one at a time, see exec)
+    if thorough && ck == 0 {
         emit(2, &Case { dict: 768 << 20, ..base_case() }, 0, 20, dist, "dict");
         emit(5, &Case { dict: u32::MAX, ..base_case() }, 0, 20, dist, "dict");
         emit(3, &Case { dict: 768 << 20, mf: 1, ..base_case() }, 0, 20, dist, "dict");
-        emit(4, &Case { dict: 768 << 20, ..base_case() }, 0, 20, dist, "dict");
-        emit(5, &Case { dict: (768 << 20) + 1, ..base_case() }, 0, 20, dist, "dict");
     }
     for kind in 1..=5u32 {
         for &(dk, len) in INPUTS {
@@ -303,7 +303,7 @@ pub fn exec(a: &[&str]) -> (String, String) {
     // CPU time.  Such cases run one at a time (waiting costs no CPU time, the verdict stays
     // independent of what else is running).
     static HUGE: std::sync::Mutex<()> = std::sync::Mutex::new(());
-    let _huge = if (128u32 << 20..=ENC_DICT_MAX_GATE).contains(&dict) { Some(HUGE.lock().unwrap_or_else(|e| e.into_inner())) } else { None };
+    let _huge = if (128u32 << 20..=ENC_DICT_MAX_GATE).contains(&dict) || (kind == 5 && dict >= 128 << 20) { Some(HUGE.lock().unwrap_or_else(|e| e.into_inner())) } else { None };
     let cap = data.len() + 1024;
     let res = match kind {
         1 => run3(|| LZMAWriter::new_use_header(Vec::new(), &o, None), |w| w.write_all(&data), |w| w.finish()),
